@@ -247,3 +247,173 @@ Proof.
     + intros [[A B] Cc]. split; auto.
     + intros [A B]. inversion B; subst. tauto.
 Qed.
+
+(* ------------------------------------------------------------------ integer points *)
+(* Extension property of closed matrices: an assignment satisfying every constraint among
+   the nodes of L extends to one more node p. *)
+Section Extend.
+  Variable f : nat -> nat -> wt.
+  Hypothesis C : closed f.
+  Variable g : nat -> Z.
+  Variable p : nat.
+
+  Definition sat_on (L : list nat) (h : nat -> Z) : Prop :=
+    forall i j k, In i L -> In j L -> f i j = Some k -> h j - h i <= k.
+
+  (* greatest lower bound / least upper bound that the nodes of L impose on node p *)
+  Fixpoint lo (L : list nat) : option Z :=
+    match L with
+    | [] => None
+    | i :: r =>
+      match f p i with
+      | Some k => Some (match lo r with Some l => Z.max l (g i - k) | None => g i - k end)
+      | None => lo r
+      end
+    end.
+  Fixpoint hi (L : list nat) : option Z :=
+    match L with
+    | [] => None
+    | i :: r =>
+      match f i p with
+      | Some k => Some (match hi r with Some h => Z.min h (g i + k) | None => g i + k end)
+      | None => hi r
+      end
+    end.
+
+  Lemma lo_ge L : forall i k, In i L -> f p i = Some k -> exists l, lo L = Some l /\ g i - k <= l.
+  Proof.
+    induction L as [|x r IH]; simpl; intros i k I E; [tauto|].
+    destruct I as [->|I].
+    - rewrite E. destruct (lo r); eexists; split; eauto; lia.
+    - destruct (IH _ _ I E) as [l [E1 H]]. rewrite E1.
+      destruct (f p x); eexists; split; eauto; lia.
+  Qed.
+  Lemma lo_attained L : forall l, lo L = Some l -> exists i k, In i L /\ f p i = Some k /\ l = g i - k.
+  Proof.
+    induction L as [|x r IH]; simpl; intros l E; [discriminate|].
+    destruct (f p x) as [k|] eqn:F.
+    - destruct (lo r) as [l'|] eqn:E1; inversion E; subst.
+      + destruct (Z.max_spec l' (g x - k)) as [[_ M]|[_ M]]; rewrite M.
+        * exists x, k. auto.
+        * destruct (IH _ eq_refl) as [i [k' [I [F' X]]]]. exists i, k'. auto.
+      + exists x, k. auto.
+    - destruct (IH _ E) as [i [k' [I [F' X]]]]. exists i, k'. auto.
+  Qed.
+  Lemma hi_le L : forall i k, In i L -> f i p = Some k -> exists h, hi L = Some h /\ h <= g i + k.
+  Proof.
+    induction L as [|x r IH]; simpl; intros i k I E; [tauto|].
+    destruct I as [->|I].
+    - rewrite E. destruct (hi r); eexists; split; eauto; lia.
+    - destruct (IH _ _ I E) as [l [E1 H]]. rewrite E1.
+      destruct (f x p); eexists; split; eauto; lia.
+  Qed.
+  Lemma hi_attained L : forall h, hi L = Some h -> exists i k, In i L /\ f i p = Some k /\ h = g i + k.
+  Proof.
+    induction L as [|x r IH]; simpl; intros l E; [discriminate|].
+    destruct (f x p) as [k|] eqn:F.
+    - destruct (hi r) as [l'|] eqn:E1; inversion E; subst.
+      + destruct (Z.min_spec l' (g x + k)) as [[_ M]|[_ M]]; rewrite M.
+        * destruct (IH _ eq_refl) as [i [k' [I [F' X]]]]. exists i, k'. auto.
+        * exists x, k. auto.
+      + exists x, k. auto.
+    - destruct (IH _ E) as [i [k' [I [F' X]]]]. exists i, k'. auto.
+  Qed.
+
+  Definition pick (L : list nat) : Z :=
+    match lo L, hi L with
+    | Some l, _ => l
+    | None, Some h => h
+    | None, None => 0
+    end.
+
+  Definition ext (L : list nat) : nat -> Z := fun i => if Nat.eqb i p then pick L else g i.
+
+  Lemma extend L :
+    ~ In p L -> wle (Some 0) (f p p) -> sat_on L g -> sat_on (p :: L) (ext L).
+  Proof.
+    intros NI Dp S i j k Ii Ij E. unfold ext.
+    assert (Hp : forall x, In x L -> Nat.eqb x p = false).
+    { intros x I. apply Nat.eqb_neq. intros ->. tauto. }
+    destruct Ii as [<-|Ii], Ij as [<-|Ij]; rewrite ?Nat.eqb_refl, ?(Hp _ Ii), ?(Hp _ Ij).
+    - rewrite E in Dp. simpl in Dp. lia.
+    - (* constraint p -> j : g j - x <= k *)
+      destruct (lo_ge L _ _ Ij E) as [l [El Hl]]. unfold pick. rewrite El. lia.
+    - (* constraint i -> p : x - g i <= k *)
+      unfold pick. destruct (lo L) as [l|] eqn:El.
+      + destruct (lo_attained L _ El) as [i' [k' [I' [F' X]]]]. subst l.
+        pose proof (C i i' p) as T. rewrite E, F' in T.
+        destruct (f i i') as [k''|] eqn:F''; simpl in T; [|tauto].
+        pose proof (S _ _ _ Ii I' F''). lia.
+      + destruct (hi_le L _ _ Ii E) as [h [Eh Hh]]. rewrite Eh. lia.
+    - apply (S _ _ _ Ii Ij E).
+  Qed.
+End Extend.
+
+Lemma sat_on_ext f g g' L : (forall i, In i L -> g i = g' i) -> sat_on f L g -> sat_on f L g'.
+Proof. intros E S i j k Ii Ij F. rewrite <- (E _ Ii), <- (E _ Ij). eapply S; eauto. Qed.
+
+Lemma solution_on f : closed f -> (forall i, wle (Some 0) (f i i)) ->
+  forall L, NoDup L -> exists g, sat_on f L g.
+Proof.
+  intros C D L. induction L as [|p L IH]; intros ND.
+  - exists (fun _ => 0). intros i j k [].
+  - inversion ND; subst. destruct (IH H2) as [g S].
+    exists (ext f g p L). apply extend; auto.
+Qed.
+
+(* from a node assignment to a store, node 0 being the constant zero *)
+Definition store_of (g : nat -> Z) : store := fun v => g (node v) - g O.
+
+Lemma val_store_of g i : val (store_of g) i = g i - g O.
+Proof.
+  destruct i; simpl; [lia|]. unfold store_of, node. rewrite Nat2N.id. reflexivity.
+Qed.
+
+Lemma mwf_diag_nonneg n m : mwf n m -> forall i, wle (Some 0) (mget m i i).
+Proof.
+  intros [S [D _]] i. destruct (Nat.lt_ge_cases i n).
+  - rewrite D; simpl; auto; lia.
+  - rewrite S; simpl; auto.
+Qed.
+
+(* a closed consistent matrix has an integer point *)
+Theorem mwf_inhabited n m : mwf n m -> exists s, gmat m s.
+Proof.
+  intros W. destruct W as [S [D C]].
+  destruct (solution_on (mget m) C (mwf_diag_nonneg n m (conj S (conj D C))) (seq 0 n) (seq_NoDup n 0))
+    as [g G].
+  exists (store_of g). intros i j k E. rewrite !val_store_of.
+  destruct (Nat.lt_ge_cases i n), (Nat.lt_ge_cases j n);
+    try (rewrite S in E by lia; discriminate).
+  assert (g j - g i <= k); [|lia]. apply (G i j k); auto; apply in_seq; lia.
+Qed.
+
+(* bottom exactly when there is no integer point *)
+Theorem zone_bottom_exact n z : zwf n z -> (z_is_bot z = true <-> forall s, ~ gamma z s).
+Proof.
+  intros W. destruct z as [|m]; simpl.
+  - split; auto.
+  - split; [discriminate|]. intros H. destruct (mwf_inhabited n m W) as [s G]. destruct (H s G).
+Qed.
+
+(* each finite entry is attained, each infinite entry is exceeded by some integer point *)
+Theorem entry_attained n m i j k : mwf n m -> (i < n)%nat -> (j < n)%nat ->
+  mget m i j = Some k -> exists s, gmat m s /\ val s j - val s i = k.
+Proof.
+  intros W Hi Hj E.
+  destruct (add_edge_m_spec n m j i (- k) W Hj Hi) as [W1 G1].
+  unfold add_edge_m in *. rewrite E in *. simpl in *.
+  replace (0 <=? - k + k) with true in * by (symmetry; apply Z.leb_le; lia). simpl in *.
+  destruct (mwf_inhabited _ _ W1) as [s G]. exists s. apply G1 in G. destruct G as [G H].
+  split; auto. specialize (G _ _ _ E). lia.
+Qed.
+
+Theorem entry_unbounded n m i j K : mwf n m -> (i < n)%nat -> (j < n)%nat ->
+  mget m i j = None -> exists s, gmat m s /\ val s j - val s i >= K.
+Proof.
+  intros W Hi Hj E.
+  destruct (add_edge_m_spec n m j i (- K) W Hj Hi) as [W1 G1].
+  unfold add_edge_m in *. rewrite E in *. simpl in *.
+  destruct (mwf_inhabited _ _ W1) as [s G]. exists s. apply G1 in G. destruct G as [G H].
+  split; auto. lia.
+Qed.
